@@ -547,7 +547,7 @@ pub fn eval(
             }
             Instruction::Not { to, val } => {
                 let val = eval_operand(&vars, val).as_bool();
-                vars.insert(to.clone(), IrValue::Bool(val));
+                vars.insert(to.clone(), IrValue::Bool(!val));
             }
             Instruction::Negate { to, val } => {
                 let val = eval_operand(&vars, val);
